@@ -36,6 +36,10 @@ CHECKS = {
    technique="bounded-exhaustive enumeration of all small tree pairs and list pairs x merge functions, with Equals-path coverage, marker accounting, identity-disjointness and every single mutation of the result",
    text="MergeNodes on every ordered pair of trees up to 3 nodes (equal root tags; error paths for different tags and nil) and MergeNodeSlices on every ordered pair of lists of 0..3 marker-carrying elements under {equality, always, never} merge functions: nothing lost (Equals path for every input node), nothing invented, documented length bounds, each element merged at most once, self-merge adds nothing, result shares no node with the inputs, inputs byte-identical after the merge and after every single AddNode/DeleteNode/SetNodes(nil) on the result.",
    note="The two roots of MergeNodes (and of elements merged by the merge function) are identified with the merged root, since the API merges the children of two same-tag nodes. Quick tier skips list pairs with 6 elements in total."),
+ "C10": dict(engine="E3", category="exploration", design_ref="§4 C10",
+   technique="bounded-exhaustive enumeration of base family graphs x all edit sequences up to k of the right-hand copy x similarity options x entry points, with marker accounting and referential-closure oracles",
+   text="Five referentially closed base graphs against their right-hand copy after every sequence of up to 2 (quick) / 3 (thorough) edits from 11 edit kinds, plus empty, disjoint and clashing-pointer documents on either side, under default/strict/lenient thresholds through the library call and the query function: every marker in exactly one output individual, at most one left and one right marker per individual, every fact of both originals present, output re-decodes to the same document, every HUSB/WIFE/CHIL/FAMS/FAMC reference resolves to the record now representing the person it denoted.",
+   note="Independent of which matching the implementation chooses (unique marker per individual). Jobs unset; schedules are C11's business. Two known findings share the root cause 'no pointer rewriting'; reference findings are collected per case so they cannot mask other findings."),
  "C05": dict(engine="E3", category="exploration", design_ref="§4 C05",
    technique="bounded-exhaustive enumeration of every calendar date against an own calendar reference model",
    text="Every day, month-year and year (quick: three 400-year blocks; thorough: all of 1..9999) is run through the real Date.Time/Years/IsBefore/IsAfter/Duration/Minimum/Maximum and compared with own proleptic-Gregorian arithmetic; exhaustive as the property's quantifier states.",
